@@ -238,6 +238,43 @@ def df_tcr2():
 
 
 @heap
+def df_tcr_alleles01():
+    # the *01 alleles of V genes whose other alleles carry a different CDR1 or CDR2 (IMGT): see df_tcr_alleles_alt
+    rows = [
+        ["TRAV8-4*01", "CAVKASGSRLT", "TRAJ1*01", "TRBV5-5*01", "CASSDRAQPQHF", "TRBJ1-1*01"],
+        ["TRAV12-2*01", "CAVKASGSRLT", "TRAJ1*01", "TRBV27*01", "CASSDRAQPQHF", "TRBJ1-1*01"],
+        ["TRAV1-1*01", "CAVKASGSRLT", "TRAJ1*01", "TRBV19*01", "CASSDRAQPQHF", "TRBJ1-1*01"],
+        ["TRAV5*01", "CLANGSRLT", "TRAJ1*01", "TRBV6-9*01", "CASSANDRAF", "TRBJ1-1*01"],
+    ]
+    return pd.DataFrame(rows, columns=["TRAV", "CDR3A", "TRAJ", "TRBV", "CDR3B", "TRBJ"])
+
+
+@heap
+def df_tcr_alleles_alt():
+    # same clonotypes as df_tcr_alleles01 with alleles *02 / *03: CDR1 or CDR2 differs from the *01 allele in every V gene of the first three rows
+    rows = [
+        ["TRAV8-4*03", "CAVKASGSRLT", "TRAJ1*01", "TRBV5-5*03", "CASSDRAQPQHF", "TRBJ1-1*01"],
+        ["TRAV12-2*03", "CAVKASGSRLT", "TRAJ1*01", "TRBV27*02", "CASSDRAQPQHF", "TRBJ1-1*01"],
+        ["TRAV1-1*02", "CAVKASGSRLT", "TRAJ1*01", "TRBV19*02", "CASSDRAQPQHF", "TRBJ1-1*01"],
+        ["TRAV5*01", "CLANGSRLT", "TRAJ1*01", "TRBV6-9*01", "CASSANDRAF", "TRBJ1-1*01"],
+    ]
+    return pd.DataFrame(rows, columns=["TRAV", "CDR3A", "TRAJ", "TRBV", "CDR3B", "TRBJ"])
+
+
+@heap
+def df_tcr_alleles_mixed():
+    # several alleles of one V gene in one table, the rarer allele first
+    rows = [
+        ["TRAV12-2*04", "CAVKASGSRLT", "TRAJ1*01", "TRBV19*03", "CASSDRAQPQHF", "TRBJ1-1*01"],
+        ["TRAV12-2*03", "CAVKASGSRLT", "TRAJ1*01", "TRBV19*01", "CASSDRAQPQHF", "TRBJ1-1*01"],
+        ["TRAV12-2*01", "CAVKASGSRLT", "TRAJ1*01", "TRBV19*02", "CASSDRAQPQHF", "TRBJ1-1*01"],
+        ["TRAV8-4*03", "CAVKASGSRLT", "TRAJ1*01", "TRBV27*02", "CASSDRAQPQHF", "TRBJ1-1*01"],
+        ["TRAV8-4*01", "CAVKASGSRLT", "TRAJ1*01", "TRBV27*01", "CASSDRAQPQHF", "TRBJ1-1*01"],
+    ]
+    return pd.DataFrame(rows, columns=["TRAV", "CDR3A", "TRAJ", "TRBV", "CDR3B", "TRBJ"], index=[21, 22, 23, 24, 25])
+
+
+@heap
 def df_beta():
     return pd.DataFrame({"CDR3B": ["CASSDRAQPQHF", "CASSANDRAF", "CASSDRAQPQHF", "CASSLGQAYEQYF", "CASSLGQAFEQYF"],
                          "TRBV": ["TRBV2*01", "TRBV2*01", "TRBV6-9*01", "TRBV7-2*01", "TRBV7-2*01"],
@@ -4457,6 +4494,24 @@ grid("metric", "g_metric_shapes", _g_metric_shapes,
           method=[("pdist", "pdist"), ("cdist", "cdist")]), cap=50)
 
 
+# V gene symbols at allele level: alleles of one gene whose germline CDR1 / CDR2 differ (round 20: a memo keyed by the gene without its allele).
+# The same clonotypes under *01 and under *02 / *03 alleles, and a table mixing alleles of one gene, through every metric class
+def _g_tcr_alleles(H, cls, table, method):
+    m = getattr(tm, cls)()
+    X = H[table]
+    if method == "pdist":
+        return m.calc_pdist_vector(X)
+    if method == "cdist_01":
+        return m.calc_cdist_matrix(X, H["df_tcr_alleles01"])
+    return m.calc_cdist_matrix(X, H["df_tcr_alleles_alt"])
+
+
+grid("metric", "g_tcr_alleles", _g_tcr_alleles,
+     dict(cls=[(x, x) for x in ("CdrLevenshtein", "AlphaCdrLevenshtein", "BetaCdrLevenshtein", "Cdr3Levenshtein")],
+          table=[("a01", "df_tcr_alleles01"), ("alt", "df_tcr_alleles_alt"), ("mixed", "df_tcr_alleles_mixed")],
+          method=[("pdist", "pdist"), ("cdist_01", "cdist_01"), ("cdist_alt", "cdist_alt")]), cap=40)
+
+
 # boundaries of the random paths: a cap that equals the size draws nothing (and must keep drawing nothing)
 def _g_maxseqs_exact(H, fn, delta):
     if fn == "downsample_list":
@@ -4752,8 +4807,8 @@ grid("pcDelta", "g_bins_unsorted", _g_bins_unsorted,
 # =============================================================================================
 _R_FAMILIES = ["CASSLGQAYEQYF", "CASSPGTDTQYF", "CAWSVGYEQYF", "CSARDRGNTIYF"]
 _R_AA = "ACDEFGHIKLMNPQRSTVWY"
-_R_V = ["TRBV2*01", "TRBV6-9*01", "TRBV7-2*01", "TRBV19*01"]
-_R_VA = ["TRAV1-1*01", "TRAV5*01", "TRAV12-1*01"]
+_R_V = ["TRBV2*01", "TRBV6-9*01", "TRBV7-2*01", "TRBV19*01", "TRBV19*02", "TRBV27*01", "TRBV27*02", "TRBV5-5*03"]
+_R_VA = ["TRAV1-1*01", "TRAV5*01", "TRAV12-1*01", "TRAV1-1*02", "TRAV12-2*01", "TRAV12-2*03", "TRAV8-4*03"]
 
 
 def _r_seq(A, base=None, edits=None):
